@@ -43,6 +43,8 @@ def cases(seed, tier, path):
                 for rows in ((300,) if tier == "quick" else (1, 300, 700)):
                     f.write(json.dumps({"seed": seed + rep, "idx": n, "kind": k, "mode": "trace", "rows": rows}) + "\n")
                     n += 1
+        f.write(json.dumps({"seed": seed, "idx": n, "kind": "ingest-fault", "mode": "trace", "rows": 600}) + "\n")
+        n += 1
         kill_kinds = ["commit-existing", "prune", "merge", "fetch", "pull"] if tier == "quick" else KINDS
         for k in kill_kinds:
             f.write(json.dumps({"seed": seed, "idx": n, "kind": k, "mode": "kill", "rows": 300}) + "\n")
@@ -114,7 +116,9 @@ def validate(v, trace):
         # a "state" trace is followed by its rerun line in the same trace: if the state was broken the
         # rerun has not been judged; re-queue it alone
         rest = []
-        if head.get("op") == "state" and ln == 0 and len(t) > 1:
+        if head.get("op") == "state" and len(t) > ln + 1:
+            rest = [[json.dumps({"op": "end"}) + "\n"] + t[ln + 1:]]
+        elif head.get("op") == "state" and ln == 0 and len(t) > 1:
             rest = [[json.dumps({"op": "end"}) + "\n"] + t[1:]]
         remaining = rest + remaining[hit + 1:]
     return len(traces), n_events
